@@ -705,7 +705,13 @@ func (gen *Generator) GenerateCallBySymbol(sym *SexpSymbol, args []Sexp, orig Se
 			gen.AddInstruction(RemoveScopeInstr{})
 		}
 		gen.AddInstruction(PrepareCallInstr{sym, len(args)})
-		gen.AddInstruction(GotoInstr{1}) // goto 1 instead of 0 to avoid adding a new scope
+		// Every activation gets a fresh function scope, as an ordinary call
+		// would give it: drop this activation's scope and re-enter at the
+		// instruction that creates one. (Re-using the scope made parameters
+		// keep the type of their first value and made closures created in
+		// earlier iterations see the later arguments.)
+		gen.AddInstruction(RemoveScopeInstr{})
+		gen.AddInstruction(GotoInstr{0})
 	} else {
 		gen.AddInstruction(CallExprInstr{callee: sym, args: append([]Sexp(nil), args...)})
 	}
